@@ -98,6 +98,20 @@ func init() {
 			}
 			g := prng.New(seed, "c11.handlers", ci)
 			k := 0
+			// operators that remove or hollow out a member are never thinned
+			// out: a missing member is the commonest way to reach a nil
+			priority := func(how string) bool {
+				for _, op := range []string{"remove@", "null@", "retype@", "empty-array@", "empty-object@", "object-without-id@", "empty-string@"} {
+					if strings.HasPrefix(how, op) {
+						return true
+					}
+				}
+				return false
+			}
+			keepHow := func(how string) bool {
+				k++
+				return priority(how) || (k+ci)%stride == 0
+			}
 			keep := func() bool {
 				k++
 				return (k+ci)%stride == 0
@@ -115,7 +129,7 @@ func init() {
 				var bj map[string]interface{}
 				mustRoundTrip(body, &bj)
 				mut.AllMutations(bj, 3, g, func(m map[string]interface{}, how string) {
-					if !keep() {
+					if !keepHow(how) {
 						return
 					}
 					sc := cloneScenario(base)
@@ -137,7 +151,7 @@ func init() {
 				var dj map[string]interface{}
 				mustRoundTrip(rs.Doc, &dj)
 				mut.AllMutations(dj, 2, g, func(m map[string]interface{}, how string) {
-					if !keep() {
+					if !keepHow(how) {
 						return
 					}
 					sc := cloneScenario(base)
@@ -181,7 +195,7 @@ func init() {
 					continue
 				}
 				mut.AllMutations(dj, 2, g, func(m map[string]interface{}, how string) {
-					if !keep() {
+					if !keepHow(how) {
 						return
 					}
 					sc := cloneScenario(base)
